@@ -2,7 +2,7 @@
 
 gamma  builds the reference world of spec/Transform.tla!World (integer coordinates, orientations atan2(s, c) of tokens)
        through public constructors: three lanelets (one with a stop line; lanelets 1 and 3 are neighbours and, in the
-       "shared-arrays" variant, hold ONE ndarray object as common boundary), a sign, a light, a static obstacle, dynamic
+       "shared-arrays" variant, hold ONE ndarray object as common boundary), a sign, a light, an area with two borders and one without, a static obstacle, dynamic
        obstacles with a KS trajectory (incl. an uncertain state), a point-mass trajectory (PMState: position + derived
        heading), an orientation-free CustomState trajectory, a set-based prediction (rect / circle / polygon / shape-group
        occupancies) and an uncertain initial state, a phantom obstacle, two environment obstacles, two planning problems
@@ -242,6 +242,8 @@ def build(mix, alias="none"):
                                common if alias == "shared-arrays" else common.copy(),
                                adjacent_right=1, adjacent_right_same_direction=True)
     net = g.network([l1, l2, l3], [g.sign(11, (4, -1))], [g.light(12, (8, 4))])          # add_lanelet: no deep copy
+    net.add_area(g.area(8, [(81, [(0, 0), (4, 0), (8, 1)], [1]), (82, [(0, -2), (4, -2), (8, -1)], None)]), {1})
+    net.add_area(g.area(9, None), {2})                                                  # an area without borders
     sc = g.scenario()
     sc.add_objects(net)
     if "static" in mix:
@@ -419,6 +421,10 @@ def walk(world, ov=None, mode="full"):
             der.setdefault("lanelet_area", []).append((_pname(p), la.polygon.shapely_object.area))
         if la.stop_line is not None:
             comps.append(["stop_line", p + (("stop_line", "-"),), [tuple(la.stop_line.start), tuple(la.stop_line.end)], []])
+    for ar in sorted(net.areas, key=lambda x: x.area_id):
+        for b in ar.border or []:
+            comps.append(["area_border", (SC, NET, ("area_border", str(b.area_border_id))),
+                          [tuple(v) for v in b.border_vertices], []])
     for s in sorted(net.traffic_signs, key=lambda x: x.traffic_sign_id):
         comps.append(["sign", (SC, NET, ("sign", str(s.traffic_sign_id))), [tuple(s.position)], []])
     for s in sorted(net.traffic_lights, key=lambda x: x.traffic_light_id):
